@@ -10,6 +10,9 @@ def dispatch (mode : String) : Option (List String → Verdict) :=
   match mode with
   | "C10" => some SockModel.Drive.C10.runCase
   | "C10rx" => some SockModel.Drive.C10.runCaseRx
+  | "C02" => some SockModel.Drive.C02.runCase
+  | "C09" => some SockModel.Drive.C09.runCase
+  | "C03" => some SockModel.Drive.C03.runCase
   | "C06" => some SockModel.Drive.C06.runCase
   | "C01" => some SockModel.Drive.C01.runCaseC01
   | "C07s" => some SockModel.Drive.C01.runCaseC07
